@@ -15,6 +15,7 @@ import (
 
 	_ "github.com/bufbuild/verifharness/internal/authmodel"
 	_ "github.com/bufbuild/verifharness/internal/cachemodel"
+	_ "github.com/bufbuild/verifharness/internal/climodel"
 	_ "github.com/bufbuild/verifharness/internal/configmodel"
 	_ "github.com/bufbuild/verifharness/internal/codegenmodel"
 	_ "github.com/bufbuild/verifharness/internal/depsmodel"
